@@ -16,7 +16,8 @@ RULE = ("Exhaustive boxes: every range(start, stop, step) in the box, every Cons
         "v in the box x width 0..9 x signedness, every bits_for/ceil_log2/exact_log2 argument in the "
         "box (each enumerated once, so distinct by construction). Hypothesis: wide integers biased to "
         "2^k, 2^k+-1 and negatives; integer enums of 1..6 members in every order; Cat/Slice trees of "
-        "constants; signal / memory inits; range-shaped signals. Oracle: brute-force search for the "
+        "constants; signal inits and memory rows given through the constructor, the init setter, index, slice "
+        "and extended-slice assignment; range-shaped signals. Oracle: brute-force search for the "
         "narrowest fitting shape, modular wrap by %, my own evaluation of constant trees. All cases "
         "are non-trivial; distinctness by canonical-JSON hash (Hypothesis parts) or by construction "
         "(enumerated boxes).")
@@ -202,11 +203,15 @@ def bigint_body(ctx, v):
 
 
 def bigconst_strategy():
-    return st.tuples(big_ints(), st.integers(0, 140), st.booleans()).filter(lambda t: not (t[2] and t[1] == 0))
+    # last element: how the memory row is given (constructor, init setter, index / slice / extended slice assignment)
+    return st.tuples(big_ints(), st.integers(0, 140), st.booleans(), st.integers(0, 4)).filter(lambda t: not (t[2] and t[1] == 0))
+
+
+MEM_ROUTES = ["constructor", "init-setter", "index-assignment", "slice-assignment", "extended-slice-assignment"]
 
 
 def bigconst_body(ctx, case):
-    v, w, s = case
+    v, w, s, route = case
     c = Const(v, mkshape(w, s))
     exp = R.wrap(v, w, s)
     if c.value != exp or not R.fits(c.value, w, s) or (c.value - v) % (1 << w) != 0:
@@ -214,12 +219,21 @@ def bigconst_body(ctx, case):
     with warnings.catch_warnings():
         warnings.simplefilter("ignore")
         sig = Signal(mkshape(w, s), init=v)
-        md = MemoryData(shape=mkshape(w, s), depth=3, init=[0, v])
+        if route == 0:
+            md = MemoryData(shape=mkshape(w, s), depth=3, init=[0, v])
+        else:
+            md = MemoryData(shape=mkshape(w, s), depth=3, init=[])
+            if route == 1: md.init = [0, v]
+            elif route == 2: md.init[1] = v
+            elif route == 3: md.init[0:2] = [0, v]
+            else: md.init[1::-1] = [v, 0]
+        rows = [md.init[k] for k in range(3)]
     if sig.init != exp:
         raise Mismatch("signal-init-wrap", v=v, shape=[w, s], expected=exp, actual=sig.init)
-    if list(md.init) != [0, exp, 0]:
-        raise Mismatch("memory-init-wrap", v=v, shape=[w, s], expected=exp, actual=list(md.init))
-    ctx.note(["bigconst", str(v), w, s], True, "bigconst:truncating" if not R.fits(v, w, s) else "bigconst:fits")
+    if list(md.init) != [0, exp, 0] or rows != [0, exp, 0]:
+        raise Mismatch("memory-init-wrap", v=v, shape=[w, s], route=MEM_ROUTES[route], expected=exp, actual=list(md.init))
+    ctx.note(["bigconst", str(v), w, s, route], True, "bigconst:truncating" if not R.fits(v, w, s) else "bigconst:fits",
+             "bigconst:memory-row-by-" + MEM_ROUTES[route])
 
 
 def bigrange_strategy():
@@ -402,7 +416,7 @@ def parts(tier):
 REQUIRED = ["range:empty", "range:negstep", "range:mixed-sign", "range:pow2-corner", "range:only-zero",
             "const:neg", "helpers", "bigint:pow2-corner", "bigconst:truncating", "bigrange:empty", "bigrange:huge",
             "enum:signed-after-unsigned", "enum:signed-first", "enum:unsigned", "ctree:depth2",
-            "rsig:rejected", "rsig:accepted"]
+            "rsig:rejected", "rsig:accepted"] + ["bigconst:memory-row-by-" + r for r in MEM_ROUTES]
 
 
 def coverage_extra(tier, counters, extra):
